@@ -4,9 +4,9 @@ use crate::support::*;
 use educe::Educe;
 use core::cmp::Ordering;
 #[derive(Educe)]
-#[educe(PartialEq)]
-pub enum T { Zed { #[educe(PartialEq(ignore(true)))] data: A<0>, r#type: A<1> } }
-pub fn values() -> Vec<T> { vec![T::Zed { data: A(0), r#type: A(0) }, T::Zed { data: A(0), r#type: A(1) }, T::Zed { data: A(0), r#type: A(7) }, T::Zed { data: A(1), r#type: A(0) }, T::Zed { data: A(1), r#type: A(1) }, T::Zed { data: A(1), r#type: A(7) }, T::Zed { data: A(7), r#type: A(0) }, T::Zed { data: A(7), r#type: A(1) }, T::Zed { data: A(7), r#type: A(7) }] }
-pub fn show(x: &T) -> String { #[allow(unused_variables)] match x { T::Zed { data: p0, r#type: p1 } => format!("Zed({},{})", sv(p0), sv(p1)) } }
-pub fn o_eq(a: &T, b: &T) -> bool { match (a, b) { (T::Zed { data: a0, r#type: a1 }, T::Zed { data: b0, r#type: b1 }) => (a1 == b1) } }
+#[educe(PartialEq, Eq)]
+pub enum T { None { source: A<0>, x: A<0> }, A(), Unit {  } }
+pub fn values() -> Vec<T> { vec![T::None { source: A(0), x: A(0) }, T::None { source: A(0), x: A(1) }, T::None { source: A(0), x: A(7) }, T::None { source: A(1), x: A(0) }, T::None { source: A(1), x: A(1) }, T::None { source: A(1), x: A(7) }, T::None { source: A(7), x: A(0) }, T::None { source: A(7), x: A(1) }, T::None { source: A(7), x: A(7) }, T::A(), T::Unit {  }] }
+pub fn show(x: &T) -> String { #[allow(unused_variables)] match x { T::None { source: p0, x: p1 } => format!("None({},{})", sv(p0), sv(p1)), T::A() => format!("A()"), T::Unit {  } => format!("Unit()") } }
+pub fn o_eq(a: &T, b: &T) -> bool { match (a, b) { (T::None { source: a0, x: a1 }, T::None { source: b0, x: b1 }) => (a0 == b0) && (a1 == b1), (T::A(), T::A()) => true, (T::Unit {  }, T::Unit {  }) => true, _ => false } }
 pub fn run(out: &mut Out) { let vs = values(); for a in &vs { for b in &vs { let e = o_eq(a, b); out.check((a == b) == e, "eq_0", "eq", || format!("{} == {} expected {}", show(a), show(b), e)); out.check((a != b) == !e, "eq_0", "ne", || format!("{} != {} expected {}", show(a), show(b), !e)); } } }
